@@ -2,7 +2,7 @@
 import re
 
 from engine.mir import E, apath, strip_refs, is_const, const_val, callee_name, self_path
-from engine.analyses import leaf_assign, switches_on, chain, contains_call
+from engine.analyses import leaf_assign, switches_on, chain, contains_call, peel_conv
 from engine.program import AnchorError
 from engine import tables
 
@@ -80,6 +80,13 @@ def layout_table_fn(prog):
     return hits[0]
 
 
+def _entry_value_type(ty):
+    """An entry look-up answers with the entry's text, owned or lent: Option<String>, Option<&String>, Option<&str>."""
+    import re as _re
+    return ty.startswith("std::option::Option<std::string::String>") or \
+        _re.fullmatch(r"std::option::Option<&(?:'\w+ )?(?:str|std::string::String)>", ty) is not None
+
+
 def layout_helpers(prog):
     """(keyed helper, numpad helper) = the table function's callees (&Layout, &str, X) -> Option<String>."""
     k = layout_table_fn(prog)
@@ -87,7 +94,7 @@ def layout_helpers(prog):
     for g in prog.reach([k], foreign_trait_impls=False):
         f = prog.fns[g]
         ins = f.get("inputs") or []
-        if g == k or f.get("kind") == "Closure" or len(ins) != 3 or ins[1] != "&str" or not (f.get("output") or "").startswith("std::option::Option<std::string::String>"):
+        if g == k or f.get("kind") == "Closure" or len(ins) != 3 or ins[1] != "&str" or not _entry_value_type(f.get("output") or ""):
             continue
         # the keyed helper takes the table function's own modifier parameter; the keypad helper takes the keypad switch
         # (the bool itself, or a private type made from it)
@@ -166,6 +173,24 @@ def layout_table(prog):
         last_call = [bb for (bb, _) in path if b.blocks[bb]["term"]["k"] == "call"]
         row = {"bb": last_call[-1] if last_call else path[-1][0], "val": val, "other": other}
         v = strip_refs(val) if val is not None else None
+        # helpers that lend the entry's text, copied once at the exit (`value.map(str::to_owned)`): on the helper's Some outcome the function
+        # answers Some(copy of it), on its None outcome None — that is the helper's own answer, owned
+        if v is not None and v.k == "agg" and str(v.a[0]).endswith("Option::Some") and len(v.a[1]) == 1:
+            inner = peel_conv(strip_refs(v.a[1][0]))
+            while inner.k in ("ref", "deref"):
+                inner = inner.a[0]
+            if inner.k == "field" and strip_refs(inner.a[0]).k == "downcast":
+                src_ = strip_refs(strip_refs(inner.a[0]).a[0])
+                if src_.k == "call" and src_.a[0] in (keyed, numpad) and any(
+                        strip_refs(ds_).k == "discr" and strip_refs(strip_refs(ds_).a[0]) == src_ for (ds_, _v) in other):
+                    v = src_
+        elif v is not None and v.k == "agg" and str(v.a[0]).endswith("Option::None"):
+            for (ds_, vals_) in other:
+                dd_ = strip_refs(ds_)
+                if dd_.k == "discr" and strip_refs(dd_.a[0]).k == "call" and strip_refs(dd_.a[0]).a[0] in (keyed, numpad):
+                    allv_ = other_allv.get(id(ds_), ())
+                    if vals_ == (0,) or (vals_ == "otherwise" and tuple(allv_) == (1,)):
+                        v = strip_refs(dd_.a[0])
         if v is not None and v.k == "call":
             row["callee"] = v.a[0]
             args = v.a[1]
@@ -845,6 +870,19 @@ def coded_bool_field(prog, getter):
     for path, env, conds in gpaths:
         ret = env.get(0)
         ret = strip_refs(ret) if ret is not None else None
+        if ret is not None and not conds and len(gpaths) == 1 and ret.k == "bin" and ret.a[0] in ("Eq", "Ne"):
+            # `self.f == Kind::On` written as a value: the comparison of the field's discriminant with one variant's
+            sides = [strip_refs(ret.a[1]), strip_refs(ret.a[2])]
+            fld = [x for x in sides if x.k == "discr" and self_path(x.a[0]) and len(self_path(x.a[0])) == 1]
+            oth = [x for x in sides if not (x.k == "discr" and self_path(x.a[0]) and len(self_path(x.a[0])) == 1)]
+            if len(fld) != 1 or len(oth) != 1:
+                return None
+            k = _variant_index(prog, oth[0])
+            if k not in (0, 1):
+                return None
+            F = self_path(fld[0].a[0])[0]
+            vmap = {k: ret.a[0] == "Eq", 1 - k: ret.a[0] != "Eq"}
+            break
         if ret is None or not is_const(ret, "bool"):
             return None
         taken = None     # set of variant indices this path stands for
